@@ -39,6 +39,7 @@ func runC03(c *Ctx) {
 	c03R4(c, p, "C03.R4")
 	c03R5(c, p)
 	rulePairs(c, p, "C03.R6")
+	boardCopyRule(c, p, "C03.R7")
 }
 
 // boardWrites: Board fields stored by fn and its callees inside package board.
